@@ -185,7 +185,7 @@ static Result run_mic(const json &c) {
     r.cls(demand_shortest ? "tric:below-half-height" : "tric:beyond-half-height");
     bool bnd = std::fabs(B.m[0][1]) == B.m[0][0] / 2 || std::fabs(B.m[0][2]) == B.m[0][0] / 2 || std::fabs(B.m[1][2]) == B.m[1][1] / 2;
     if (bnd) r.cls("tric:reduction-boundary");
-    if (h < 0.5L * std::min(B.m[0][0], std::min(B.m[1][1], B.m[2][2]))) r.cls("tric:height<half-min-edge");
+    if (h < 0.95L * std::min(B.m[0][0], std::min(B.m[1][1], B.m[2][2]))) r.cls("tric:h_min<0.95*min-edge");
   }
   bool ambiguous = false;
 
@@ -239,12 +239,22 @@ static Result run_mic(const json &c) {
 
 // ------------------------------------------------------------------ generators
 static json gen_frac() {
-  int m = pick<int>({1, 2, 4, 12, 20});
+  int m = pick<int>({1, 2, 2, 4, 4, 4, 12, 12, 12, 12, 12, 12, 12, 20, 20, 20, 20, 20, 20, 20});
   json f = json::array();
   for (int k = 0; k < 3; ++k) f.push_back(double(ri(0, (1 << m) - 1)) / double(1 << m));
   return f;
 }
 static json gen_shifts(int pct_zero) { return json::array({gen_shift(pct_zero), gen_shift(pct_zero), gen_shift(pct_zero)}); }
+// image regime of a case: 0 none, 1 small (+-1, +-2), 2 anything up to +-10^6
+static json gen_shifts_regime(int regime) {
+  if (regime == 0) return json::array({0, 0, 0});
+  if (regime == 1) {
+    json a = json::array();
+    for (int k = 0; k < 3; ++k) a.push_back(rbool(40) ? 0 : (rbool() ? 1 : -1) * ri(1, 2));
+    return a;
+  }
+  return gen_shifts(40);
+}
 
 static std::string gen_type(int kind) {
   // kind 1 (diagonal): auto, explicit orthorhombic, explicit triclinic (a diagonal box is a valid reduced triclinic box)
@@ -259,25 +269,45 @@ static json gen_periodic(int kind) {
   c["box"] = gen_box(kind);
   c["type"] = gen_type(kind);
   c["route"] = ri(0, 2);
+  int regime = pick<int>({0, 1, 1, 2, 2, 2});
   c["f1"] = gen_frac();
-  c["n1"] = gen_shifts(55);
+  c["n1"] = gen_shifts_regime(regime);
   int rel = ri(0, 19);
+  if (rel >= 12) {
+    // second point = first + offset of length up to ~0.54 h_min (mostly below half the shortest height, where the triclinic
+    // routine must return the shortest image) + whole box vectors; both points are stored as plain coordinates
+    Box B = box_from(c["box"]);
+    double h = double(hmin(B));
+    std::array<double, 3> p1 = pos_of(B, c["f1"], c["n1"]);
+    int amp = pick<int>({8, 20, 40, 40});
+    std::array<double, 3> p2;
+    for (size_t k = 0; k < 3; ++k) p2[k] = p1[k] + h * double(ri(-amp, amp)) / 128.0;
+    p2 = moved(B, p2, gen_shifts_regime(regime));
+    c["p1"] = p1;
+    c["p2"] = p2;
+    c["k1"] = gen_shifts_regime(regime);
+    c["k2"] = gen_shifts_regime(regime);
+    return c;
+  }
   if (rel == 0)
     c["f2"] = c["f1"];  // same point / pure lattice translation
   else if (rel <= 2) {  // difference of exactly half a box vector along 1..3 axes: rounding tie, point on the brick face
     json f2 = c["f1"];
     int mask = ri(1, 7);
+    bool near = rbool(50);
     for (int k = 0; k < 3; ++k)
       if (mask & (1 << k)) {
         double x = f2[size_t(k)].get<double>() + 0.5;
+        // half of these are moved off the exact tie by +-2^-e: near-ties that still have a unique answer
+        if (near) x += (rbool() ? 1.0 : -1.0) * std::ldexp(1.0, -ri(22, 45));
         f2[size_t(k)] = x >= 1 ? x - 1 : x;
       }
     c["f2"] = f2;
   } else
     c["f2"] = gen_frac();
-  c["n2"] = gen_shifts(55);
-  c["k1"] = gen_shifts(40);
-  c["k2"] = gen_shifts(40);
+  c["n2"] = gen_shifts_regime(regime);
+  c["k1"] = gen_shifts_regime(std::max(regime, 1));
+  c["k2"] = gen_shifts_regime(regime);
   return c;
 }
 static json gen_ortho() { return gen_periodic(1); }
